@@ -27,7 +27,7 @@ def generate(ctx, pid, tier, seed, wd):
         for fn in sorted(os.listdir(cdir)):
             if fn.endswith(".ops"):
                 lines += open(os.path.join(cdir, fn)).read().split("\n")
-    p = subprocess.run([ctx["bin"], "gen", pid, tier, str(seed)], stdout=subprocess.PIPE,
+    p = subprocess.run([ctx["bin_for"](pid), "gen", pid, tier, str(seed)], stdout=subprocess.PIPE,
                        stderr=subprocess.PIPE, env=ctx["env"])
     if p.returncode != 0:
         raise ctx["MachineryError"](f"generator failed for {pid}: {p.stderr.decode()[-1000:]}")
@@ -43,7 +43,7 @@ def run_impl(ctx, pid, ops_path, out_path, mode_env=None, bin_path=None):
     env = dict(ctx["env"])
     env.update(mode_env or {})
     with open(ops_path, "rb") as fi, open(out_path, "wb") as fo:
-        p = subprocess.run([bin_path or ctx["bin"], "run", pid], stdin=fi, stdout=fo,
+        p = subprocess.run([bin_path or ctx["bin_for"](pid), "run", pid], stdin=fi, stdout=fo,
                            stderr=subprocess.PIPE, env=env)
     err = p.stderr.decode("utf-8", "replace")
     m = re.search(r"#hook checked=(\d+) failed=(\d+)", err)
